@@ -217,7 +217,7 @@ func c07CopyWalksAll(p *load.Prog, r *oblig.Run) {
 		return
 	}
 	n := 0
-	for _, an := range dc.AnonFuncs {
+	for _, an := range copyCallbacks(p, dc) {
 		if an.Signature.Results().Len() != 2 {
 			continue
 		}
@@ -275,4 +275,38 @@ func comparesElements(fn *ssa.Function) bool {
 		}
 	}
 	return false
+}
+
+// copyCallbacks: the functions DeepCopy can hand to Filter as its callback: its function literals, or the method
+// behind a bound method value (copier.copyNode).
+func copyCallbacks(p *load.Prog, dc *ssa.Function) []*ssa.Function {
+	out := append([]*ssa.Function{}, dc.AnonFuncs...)
+	for _, b0 := range dc.Blocks {
+		for _, i0 := range b0.Instrs {
+			mc, ok := i0.(*ssa.MakeClosure)
+			if !ok {
+				continue
+			}
+			fn, _ := mc.Fn.(*ssa.Function)
+			if fn == nil || fn.Synthetic == "" {
+				continue
+			}
+			// bound method wrapper: it calls the method with the bound receiver
+			found := false
+			for _, ic := range su.Calls(fn) {
+				if m := ic.Common().StaticCallee(); m != nil && p.IsRepoFunc(m) && len(m.Blocks) > 0 {
+					out = append(out, m)
+					found = true
+				}
+			}
+			if !found {
+				if obj, isFunc := fn.Object().(*types.Func); isFunc {
+					if m := p.SSA.FuncValue(obj); m != nil && len(m.Blocks) > 0 {
+						out = append(out, m)
+					}
+				}
+			}
+		}
+	}
+	return out
 }
